@@ -17,6 +17,9 @@ EXPLANATION = (
     "registered in runtime::basic and with the documented mapping; G6 each Value::resolve stores the description of its own "
     "constructor with components in declaration order; G7 the leaf fallback refuses instead of panicking; G9 filtermap sides forced to unit."
 )
+EXPLANATION += (  # round-3 supplement
+    ' G3 also understands the arity gate written as an explicit length comparison with indexed checks (constant propagation), G4 the constructor test factored into a helper (let-else or match form) whose body is then checked for the name and GLOBAL-scope comparison.'
+)
 ASSUMPTIONS = [
     "TypeId uniqueness and the TypeRegistry being keyed by TypeId (trusted)",
     "decides the gate's logic; ABI correctness of a call through a correctly typed handle is C05",
